@@ -141,9 +141,18 @@ func (fv *FuncVC) updatePath(root string, path []pathStep, val string) string {
 }
 
 func (fv *FuncVC) loadPlace(st *State, p *Place) *Val {
-	// whole-struct load from a pointer to struct (PHeap with Heap=="" means struct object)
-	if p.Kind == PHeap && p.Heap == "" {
-		return fv.loadStruct(st, p.Ref, p.Root)
+	// whole-struct load of a (recursively flattened) struct stored in field heaps
+	if isHeapAggregate(p) {
+		u := p.Typ.Underlying().(*types.Struct)
+		sn := fv.g.sorts.structSort(p.Typ, u)
+		if u.NumFields() == 0 {
+			return &Val{T: "mk!" + sn, Typ: p.Typ}
+		}
+		parts := []string{"mk!" + sn}
+		for i := 0; i < u.NumFields(); i++ {
+			parts = append(parts, fv.loadPlace(st, fv.fieldPlace(p, i)).T)
+		}
+		return &Val{T: "(" + strings.Join(parts, " ") + ")", Typ: p.Typ}
 	}
 	root := fv.rootTerm(st, p)
 	t := fv.selectPath(root, p.Path)
@@ -167,15 +176,13 @@ func (fv *FuncVC) loadStruct(st *State, ref string, t types.Type) *Val {
 
 func (fv *FuncVC) storePlace(p *Place, v *Val) {
 	val := v.T
-	if p.Kind == PHeap && p.Heap == "" {
-		// whole struct store
-		u := p.Root.Underlying().(*types.Struct)
-		sn := fv.g.sorts.structSort(p.Root, u)
+	if isHeapAggregate(p) {
+		// whole struct store: distribute over the (recursively flattened) field heaps
+		u := p.Typ.Underlying().(*types.Struct)
+		sn := fv.g.sorts.structSort(p.Typ, u)
 		vt := fv.name("sv", sn, val)
 		for i := 0; i < u.NumFields(); i++ {
-			hn, hs := fv.g.fieldHeap(p.Root, i)
-			h := fv.heapGet(hn, hs)
-			fv.heapSet(hn, hs, "(store "+h+" "+p.Ref+" ("+fieldAcc(sn, i)+" "+vt+"))")
+			fv.storePlace(fv.fieldPlace(p, i), &Val{T: "(" + fieldAcc(sn, i) + " " + vt + ")", Typ: u.Field(i).Type()})
 		}
 		return
 	}
@@ -219,9 +226,8 @@ func (fv *FuncVC) placeFromPointer(v *Val) *Place {
 func (fv *FuncVC) fieldPlace(p *Place, i int) *Place {
 	st := p.Typ.Underlying().(*types.Struct)
 	ft := st.Field(i).Type()
-	if p.Kind == PHeap && p.Heap == "" {
-		hn, _ := fv.g.fieldHeap(p.Root, i)
-		return &Place{Kind: PHeap, Heap: hn, Ref: p.Ref, Root: ft, Typ: ft}
+	if isHeapAggregate(p) {
+		return &Place{Kind: PHeap, Heap: fv.subHeapName(p, i), Ref: p.Ref, Root: ft, Typ: ft}
 	}
 	np := *p
 	np.Path = append(append([]pathStep{}, p.Path...), pathStep{field: i, typ: p.Typ})
